@@ -39,11 +39,15 @@ NMAX = {'quick': 300, 'thorough': 1000}
 # Wall-clock caps (never a violation, only `undecided`).  A case gets T1 seconds; when T1 expires the child looks at
 # the step rate so far: if the case would reach the step budget within T2 at that rate (a loop-like, many-small-steps
 # computation: the budget can still decide it) it is allowed to run on, otherwise (few gigantic steps) it is stopped.
-WALL_T1 = {'quick': 5.0, 'thorough': 12.0}
+WALL_T1 = {'quick': 3.0, 'thorough': 8.0}
 WALL_T2 = {'quick': 40.0, 'thorough': 600.0}
 WALL_HARD_EXTRA = 15.0                                  # parent kills the child this long after the applicable cap
-SHARD_TIMEOUT = {'quick': 600, 'thorough': 3000}
-SHARD_DEADLINE = {'quick': 55.0, 'thorough': 780.0}     # no new case is started after this (counted, never a verdict)
+SHARD_TIMEOUT = {'quick': 600, 'thorough': 3300}
+# A shard starts no new case once its children have used this much CPU time (so the set of executed cases does not
+# depend on the load of the machine), or once the wall-clock safety limit is reached (so that the worker always
+# reports before the runner's watchdog).  Skipped cases are counted, never a verdict.
+SHARD_DEADLINE = {'quick': 55.0, 'thorough': 780.0}
+SHARD_WALL_SAFETY = {'quick': 420.0, 'thorough': 2500.0}
 DEADLINE_SLACK = {'quick': 20.0, 'thorough': 90.0}      # an extension beyond T1 must project to end before deadline+slack
 N_SHARDS = 16
 
@@ -94,7 +98,7 @@ COST = {'airyai': 0.11, 'airyaizero': 0.45, 'airybi': 0.27, 'airybizero': 0.37, 
         'polylog': 0.20, 'primezeta': 0.96, 'psi': 0.11, 'qp': 0.12, 'rf': 0.10, 'rgamma': 0.10, 'riemannr': 0.10,
         'scorergi': 0.13, 'shi': 0.06, 'siegeltheta': 0.09, 'siegelz': 0.10, 'stieltjes': 0.37, 'struveh': 0.11,
         'struvel': 0.08, 'whitw': 0.15, 'zeta': 0.21}
-CASES_PER_FUNCTION = {'quick': 80, 'thorough': 800}
+CASES_PER_FUNCTION = {'quick': 110, 'thorough': 800}
 MIN_CASES = {'quick': 10, 'thorough': 60}
 
 
@@ -346,6 +350,25 @@ def _shift_spec(q, d):
     return K.R(canon(1 if v < 0 else 0, abs(v), e)) if v else K.I(0)
 
 
+def _c(re, im):
+    return K.C(rawf(re), rawf(im))
+
+
+# Seed-independent cases executed in every run (one per known mechanism, so that a known finding is met on every seed
+# alike and its disappearance after a fix is visible), plus the regression witnesses of the planned mutants' loops.
+DIRECTED = [
+    ('pcfw', 53, [K.I(20), _c(-23.8, -5e-9)]),            # sum_accurately with all-zero terms
+    ('eulernum', 53, [K.I(-2)]),                           # negative index
+    ('digamma', 24, [_c(-1.9, -1.0)]),                     # mpc_psi0 Euler-Maclaurin loop
+    ('primezeta', 53, [K.R(rawf(2.0 ** -10))]),            # Moebius sum next to the natural boundary Re(s)=0
+    ('digamma', 53, [K.R(rawf(3.0))]),                     # mpf_psi0 loop (guarded)
+    ('digamma', 64, [K.R(rawf(-7.25))]),
+    ('hyp2f1', 53, [K.I(1), K.I(1), K.I(2), K.R(rawf(-1.0 + 2.0 ** -30))]),      # hypsum close to |z| = 1
+    ('lambertw', 53, [K.R(rawf(-0.36787944117144233 + 2.0 ** -40)), K.I(0)]),   # Halley iteration next to the branch point
+    ('lambertw', 200, [_c(1e-300, 0.5), K.I(-1)]),
+]
+
+
 def make_cases(tier, seed, shard, nshards):
     """deterministic list of cases of this shard: (function, style, precision, specs)"""
     r = G.rng(PROP, seed, shard)
@@ -366,6 +389,9 @@ def make_cases(tier, seed, shard, nshards):
                 raise
             cases.append((name, style, p, specs))
     r.shuffle(cases)
+    for j, (name, p, specs) in enumerate(DIRECTED):
+        if j % nshards == shard:
+            cases.insert(0, (name, 'directed', p, specs))
     return cases
 
 
@@ -396,6 +422,31 @@ def regime(specs, p):
     else:
         mb = 'moderate'
     return '%s/mag:%s/%s' % (kind, mb, 'p<=400' if p <= 400 else 'p>400')
+
+
+def input_class(name, specs):
+    """'small' when every argument is within the quick envelope (|x| <= 10^4, counts <= 300), else 'big'.
+    The step budget and the extended wall cap are attached to the input class, not to the tier: B = 2*10^7 for
+    'small', 4*10^8 for 'big' (the thorough tier runs both classes)."""
+    kinds = K.ENTRIES[name][1].split()
+    for kind, s in zip(kinds, specs):
+        if s[0] == 'I':
+            count = kind in ('n', 'n1', 'k', 'j') or (kind == 'i' and name in POLY_INT)
+            if abs(s[1]) > (NMAX['quick'] if count else XMAX['quick']):
+                return 'big'
+            continue
+        for raw in s[1:]:
+            if raw[1] and _absval_gt(raw, XMAX['quick']):
+                return 'big'
+    return 'small'
+
+
+def _absval_gt(raw, bound):
+    sg, m, e, bc = raw
+    return (m << e) > bound if e >= 0 else m > (bound << -e)
+
+
+CLASS_TIER = {'small': 'quick', 'big': 'thorough'}
 
 
 def show_spec(s):
@@ -438,36 +489,38 @@ def _stack_summary(exc, limit=14):
 
 
 class Watch(object):
-    """SIGALRM handler implementing the two-stage wall-clock cap"""
+    """SIGPROF handler implementing the two-stage cap.  The caps are measured in CPU time of the child (ITIMER_PROF /
+    time.process_time), so they do not depend on the load of the machine; only the shard deadline is wall-clock."""
 
-    def __init__(self, sb, tier, deadline_at):
+    def __init__(self, sb, tier, cpu_left):
         self.sb, self.tier = sb, tier
-        self.hard_end = deadline_at + DEADLINE_SLACK[tier]
+        self.hard_end = cpu_left + DEADLINE_SLACK[tier]          # in CPU seconds of this child
         self.notify = None
         self.stage = 0
-
-    def arm(self, budget):
-        self.budget = budget
-        self.t0 = time.time()
-        self.stage = 1
         self.extended = False
-        signal.setitimer(signal.ITIMER_REAL, WALL_T1[self.tier])
+
+    def arm(self, budget, t2, full=False):
+        self.budget = budget
+        self.t2 = t2
+        self.t0 = time.process_time()
+        self.stage = 2 if full else 1
+        self.extended = full
+        signal.setitimer(signal.ITIMER_PROF, t2 if full else WALL_T1[self.tier])
 
     def disarm(self):
         self.stage = 0
-        signal.setitimer(signal.ITIMER_REAL, 0)
+        signal.setitimer(signal.ITIMER_PROF, 0)
 
     def __call__(self, signum, frame):
         if self.stage == 1:
-            now = time.time()
-            el = max(now - self.t0, 1e-3)
+            el = max(time.process_time() - self.t0, 1e-3)
             steps = self.sb.steps
             need = (self.budget - steps) * el / steps if steps > 0 else float('inf')
             need = 1.3 * need + 1.0
-            if el + need <= WALL_T2[self.tier] and now + need <= self.hard_end:
+            if el + need <= self.t2 and time.process_time() + need <= self.hard_end:
                 self.stage = 2
                 self.extended = True
-                signal.setitimer(signal.ITIMER_REAL, need)
+                signal.setitimer(signal.ITIMER_PROF, need)
                 if self.notify:
                     self.notify()
                 return
@@ -482,7 +535,7 @@ def _selftest_loop():
         i += 1
 
 
-def run_one(mp, sb, watch, name, specs, p, budget):
+def run_one(mp, sb, watch, name, specs, p, budget, t2, full=False):
     """-> dict(out=..., steps=..., [exc, msg, stack])"""
     f = getattr(mp, name)
     mp.prec = p
@@ -490,10 +543,10 @@ def run_one(mp, sb, watch, name, specs, p, budget):
     mp.pretty = False
     args = [K.build(mp, s) for s in specs]
     res = {}
-    t0 = time.time()
+    t0 = time.process_time()
     try:
         try:
-            watch.arm(budget)
+            watch.arm(budget, t2, full)
             sb.start(budget)
             try:
                 f(*args)
@@ -525,7 +578,7 @@ def run_one(mp, sb, watch, name, specs, p, budget):
         res.setdefault('stack', [])
     sb.active = False
     res['steps'] = sb.steps
-    res['wall'] = round(time.time() - t0, 3)
+    res['wall'] = round(time.process_time() - t0, 3)
     mp.prec = 53
     return res
 
@@ -533,7 +586,7 @@ def run_one(mp, sb, watch, name, specs, p, budget):
 from vf.instrument import BudgetExceeded as sb_exc
 
 
-def child_main(cases, start, wfd, tier, deadline_at):
+def child_main(cases, start, wfd, tier, cpu_left, wall_end):
     from vf.instrument import StepBudget, AnchorCount
     import mpmath
     mp = mpmath.mp
@@ -549,8 +602,8 @@ def child_main(cases, start, wfd, tier, deadline_at):
     ar = _R()
     sb = StepBudget(BUDGET[tier])
     sb.install()
-    watch = Watch(sb, tier, deadline_at)
-    signal.signal(signal.SIGALRM, watch)
+    watch = Watch(sb, tier, cpu_left)
+    signal.signal(signal.SIGPROF, watch)
     ac = AnchorCount(ar, ANCHORS)
     ac.__enter__()
     # self-test of the monitor in this very process: a deliberate endless loop must be cut
@@ -567,13 +620,17 @@ def child_main(cases, start, wfd, tier, deadline_at):
     i = start
     try:
         while i < len(cases):
-            if time.time() > deadline_at:
+            if time.process_time() > cpu_left or time.time() > wall_end:
                 send({'deadline': i})
                 break
             name, style, p, specs = cases[i]
             send({'begin': i})
+            if style in ('directed', 'replay'):
+                send({'extended': i})
             watch.notify = lambda i=i: send({'extended': i})
-            res = run_one(mp, sb, watch, name, specs, p, BUDGET[tier])
+            ct = CLASS_TIER[input_class(name, specs)]
+            res = run_one(mp, sb, watch, name, specs, p, BUDGET[ct], WALL_T2[ct], full=(style in ('directed', 'replay')))
+            res['budget'] = BUDGET[ct]
             res['i'] = i
             res['tainted'] = tainted
             send(res)
@@ -602,10 +659,13 @@ def verdict(rec, case, res, tier):
     steps = res.get('steps', 0)
     cell = regime(specs, p)
     cat = K.ENTRIES[name][0]
+    ct = CLASS_TIER[input_class(name, specs)]
+    B = res.get('budget', BUDGET[ct])
     cdesc = {'function': name, 'args': [show_spec(s) for s in specs], 'specs': specs, 'prec': p, 'style': style,
-             'steps': steps, 'wall_s': res.get('wall')}
+             'steps': steps, 'cpu_s': res.get('wall')}
     rec.case(ident, True, cls='%s/%s' % (cat, out if out != 'documented' else 'documented:' + res.get('exc', '?')))
     rec.cls('style/' + style)
+    rec.cls('class/' + ('|x|<=1e4 (B=2e7)' if ct == 'quick' else '|x|<=1e6 (B=4e8)'))
     rec.cls('fn/' + name)
     rec.event('outermost calls under the step counter')
     if out in ('returned', 'documented', 'undocumented'):
@@ -619,9 +679,9 @@ def verdict(rec, case, res, tier):
         cdesc['stack'] = res.get('stack')
         rec.violation('C24/budget/%s/%s' % (name, cell),
                       '%s did not return within %d logical steps (|x|<=%d, prec %d): no bounded progress'
-                      % (name, BUDGET[tier], XMAX[tier], p), cdesc,
-                      observed='> %d steps; interrupted at %s' % (BUDGET[tier], (res.get('stack') or ['?'])[-1]),
-                      expected='return or documented exception within %d steps' % BUDGET[tier])
+                      % (name, B, XMAX[ct], p), cdesc,
+                      observed='> %d steps; interrupted at %s' % (B, (res.get('stack') or ['?'])[-1]),
+                      expected='return or documented exception within %d steps' % B)
     elif out == 'undocumented':
         cdesc['stack'] = res.get('stack'); cdesc['message'] = res.get('msg')
         rec.violation('C24/undocumented-exception/%s/%s' % (name, res['exc']),
@@ -630,10 +690,10 @@ def verdict(rec, case, res, tier):
                       expected='return value or one of ValueError/ZeroDivisionError/NoConvergence/NotImplementedError')
     elif out == 'wall':
         cdesc['stack'] = res.get('stack')
-        rec.undecided('wall-clock cap T1=%.0f s reached, step rate too low to reach the budget within T2=%.0f s' % (WALL_T1[tier], WALL_T2[tier]), cdesc)
+        rec.undecided('CPU-time cap T1=%.0f s reached, step rate too low to reach the budget within T2=%.0f s' % (WALL_T1[tier], WALL_T2[ct]), cdesc)
     elif out == 'wall2':
         cdesc['stack'] = res.get('stack')
-        rec.undecided('extended wall-clock cap reached before the step budget', cdesc)
+        rec.undecided('extended CPU-time cap T2 reached before the step budget', cdesc)
     elif out == 'memory':
         rec.undecided('MemoryError', cdesc)
     if out == 'documented':
@@ -644,9 +704,11 @@ def supervise(cases, rec, tier, t_start, confirm=None, final=True):
     """confirm: list collecting cases to re-execute in a fresh child (None: report whatever is seen)"""
     if confirm is None and final:
         confirm = []
-    hard1 = WALL_T1[tier] + WALL_HARD_EXTRA
-    hard2 = WALL_T2[tier] + WALL_HARD_EXTRA
-    deadline_at = t_start + SHARD_DEADLINE[tier]
+    # the child's caps are CPU time; the parent's kill limits are wall-clock, generous (x4) to tolerate a loaded machine
+    hard1 = 4 * (WALL_T1[tier] + WALL_HARD_EXTRA)
+    hard2 = 4 * (WALL_T2[tier] + WALL_HARD_EXTRA)    # upper bound; the child enforces the class-specific T2
+    wall_end = t_start + SHARD_WALL_SAFETY[tier]
+    cpu_used = 0.0
     i = 0
     anchors = collections.Counter()
     while i < len(cases):
@@ -657,7 +719,7 @@ def supervise(cases, rec, tier, t_start, confirm=None, final=True):
             code = 0
             try:
                 os.close(rfd)
-                child_main(cases, i, wfd, tier, deadline_at)
+                child_main(cases, i, wfd, tier, SHARD_DEADLINE[tier] - cpu_used if final else 1e9, wall_end if final else 1e18)
             except BaseException:
                 traceback.print_exc()
                 code = 3
@@ -691,7 +753,7 @@ def supervise(cases, rec, tier, t_start, confirm=None, final=True):
                         began = msg['begin']; t_began = time.time(); hard = hard1
                     elif 'extended' in msg:
                         hard = hard2
-                        rec.event('cases allowed past T1 (step rate projects to reach the budget)')
+                        rec.event('cases run under the extended wall cap T2 (directed, or step rate projects to reach the budget)')
                     elif 'deadline' in msg:
                         rec.event('cases not started: shard deadline', len(cases) - msg['deadline'])
                         cur = len(cases)
@@ -717,7 +779,8 @@ def supervise(cases, rec, tier, t_start, confirm=None, final=True):
                 break
         os.close(rfd)
         try:
-            _, st = os.waitpid(pid, 0)
+            _, st, ru = os.wait4(pid, 0)
+            cpu_used += ru.ru_utime + ru.ru_stime
         except OSError:
             st = 0
         if killed or (not finished and began is not None and cur == began):
@@ -823,7 +886,7 @@ def required(agg, tier):
                     'max_witness': mx[1] if mx else None}
         agg['maxima'].pop('steps/' + fn, None)
     if summ:
-        agg['notes']['steps per function (calls, max, 99.9th percentile bucket upper edge, budget %d)' % BUDGET[tier]] = summ
+        agg['notes']['steps per function (calls, max, 99.9th percentile bucket upper edge; budget 2e7 for |x|<=1e4, 4e8 above)'] = summ
     return miss
 
 
